@@ -174,7 +174,8 @@ META = {
     "C10": {
         "text": "Coq theorem C10_window: for every size, every outcome of the cleanup trigger at each publication, any number of publications and reopenings, "
                 "the retained sequence numbers are exactly lo..n, at least min(n,size), exactly that when cleanup always runs, everything when size=0 or cleanup "
-                "never runs; corollary C10_replay_complete. Tied to bolt.go by publish sequences on the real transport (payloads spanning several B-tree pages, "
+                "never runs; corollary C10_replay_complete; when the size changes at restarts the window stays contiguous (C10_reconfigured_contiguous, replay still complete) and each publication keeps "
+                "everything with fewer than the current size newer updates, a cleanup that runs leaves nothing older. Tied to bolt.go by publish sequences on the real transport (payloads spanning several B-tree pages, "
                 "restarts in between), each step compared with the model's two allowed outcomes.",
         "design_ref": "DESIGN.md §5 C10",
         "note": "trusted: Coq kernel + vm_compute; bbolt by contract; Go drivers. Defect found and fixed: cleanup skipped every second key.",
